@@ -18,6 +18,7 @@ PROFILE = H.Profile('c01', nops=(3, 22), final_restart=True)
 class C01(H.Oracle):
     prop = PROP
     live_every = 1
+    judge_write_open = True
 
     def check_view(self, ctx, phase):
         d = ctx.d
@@ -34,8 +35,7 @@ class C01(H.Oracle):
         mm = O.compare_views(d.model.view(), view)
         if mm:
             ns, kind, path, ev, ov = mm[0]
-            ek = (ev or ov)[0]
-            ctx.violate((phase, ns, kind, ek), 'path=%r expected=%r observed=%r (+%d more)' % (path, ev, ov, len(mm) - 1))
+            ctx.violate((phase,) + O.mismatch_sig(mm[0]), 'path=%r expected=%r observed=%r (+%d more)' % (path, ev, ov, len(mm) - 1))
 
     def on_edit(self, ctx, op, out):
         if ctx.accepted_edits % self.live_every == 0:
